@@ -462,11 +462,22 @@ def build_plan(ctx):
             if v[0] == 'c':
                 es = list(v[1])
                 vals += [('c', tuple(es[1:])), ('c', tuple(sorted(es + [(5, ('a', 1, 1))]))), ('c', tuple((kk, None) for kk, _ in es)), ('l', (('c', tuple(es[1:])),))]
+        # a singleton list whose only item conforms to the type WITHOUT being of exactly that type (an empty list, a context with null components or
+        # an undeclared entry): still unwrapped (seeded change C11_h: the unwrap asked for an equivalent type)
+        must = []
+        if T is not None:
+            if v[0] == 'l':
+                must.append(('l', (('l', ()),)))
+            if v[0] == 'c':
+                es = list(v[1])
+                must += [('l', (('c', tuple((kk, None) for kk, _ in es)),)), ('l', (('c', tuple(sorted(es + [(5, ('a', 1, 1))]))),))]
         for p in rng.sample(range(8), 3):
             vals += [('a', p, 1), ('l', (('a', p, 1),))]
-        vals = dedup(vals)
+        vals = dedup(vals + must)
         if len(vals) > nvals:
-            vals = vals[:4] + rng.sample(vals[4:], nvals - 4)
+            rest = [x for x in vals[4:] if x not in must]
+            pick = [x for x in must if x in vals[4:]][:1 + (len(must) > 1 and rng.random() < 0.5)]
+            vals = vals[:4] + pick + rng.sample(rest, max(0, nvals - 4 - len(pick)))
         plan.cur['out'].append((r, vals))
 
     # (1) the variable evaluator arms: typeRef names a simple type directly — every simple type against every kind of atom
